@@ -4,6 +4,7 @@ import (
 	"fmt"
 	"go/constant"
 	"go/token"
+	"go/types"
 	"sort"
 	"strings"
 
@@ -16,6 +17,28 @@ type Frame struct {
 	Site   ssa.CallInstruction
 	Parent *Frame
 	key    string
+	// for a call through a function value (a bound method handed on as an argument): the
+	// effective arguments, parallel to Fn.Params, and the frame each of them lives in
+	Args  []ssa.Value
+	ArgFr []*Frame
+}
+
+// Arg returns the argument bound to parameter idx of this activation and the frame it lives in.
+func (fr *Frame) Arg(idx int) (ssa.Value, *Frame, bool) {
+	if fr == nil || fr.Site == nil || fr.Parent == nil || idx < 0 {
+		return nil, nil, false
+	}
+	if fr.Args != nil {
+		if idx >= len(fr.Args) {
+			return nil, nil, false
+		}
+		return fr.Args[idx], fr.ArgFr[idx], true
+	}
+	args := fr.Site.Common().Args
+	if idx >= len(args) {
+		return nil, nil, false
+	}
+	return args[idx], fr.Parent, true
 }
 
 func (fr *Frame) Key() string { return fr.key }
@@ -42,12 +65,11 @@ func (fr *Frame) Resolve(v ssa.Value) (ssa.Value, *Frame) {
 				idx = i
 			}
 		}
-		args := fr.Site.Common().Args
-		if idx < 0 || idx >= len(args) {
+		a, afr, okA := fr.Arg(idx)
+		if !okA {
 			return v, fr
 		}
-		v = args[idx]
-		fr = fr.Parent
+		v, fr = a, afr
 		// look through instantiation changetype
 		if ct, ok := v.(*ssa.ChangeType); ok {
 			v = ct.X
@@ -273,7 +295,7 @@ func (f *Flow) runOne(fr *Frame, st0 string) []string {
 							d := deferByID[ids[i]]
 							var nsts []string
 							for _, s := range sts {
-								for _, o := range f.doCall(fr, s, d, true) {
+								for _, o := range f.doCall(fr, s, d, true, e.facts) {
 									nsts = append(nsts, strings.SplitN(o, retSep, 2)[0])
 								}
 							}
@@ -288,7 +310,7 @@ func (f *Flow) runOne(fr *Frame, st0 string) []string {
 				id := instrID(in)
 				for _, es := range cur {
 					e := dec(es)
-					for _, o := range f.doCall(fr, e.st, in, false) {
+					for _, o := range f.doCall(fr, e.st, in, false, e.facts) {
 						parts := strings.SplitN(o, retSep, 2)
 						facts := e.facts
 						if f.TrackBoolReturns {
@@ -432,8 +454,30 @@ func (f *Flow) runOne(fr *Frame, st0 string) []string {
 						outs = r
 					}
 				}
+				efacts := e.facts
+				for _, x := range succ.Instrs {
+					// which alternative of a function-valued phi this path selects (run := dsc.loop;
+					// if untimed { run = dsc.loopUntimeouted }; run())
+					ph, isPhi := x.(*ssa.Phi)
+					if !isPhi {
+						break
+					}
+					if _, isSig := ph.Type().Underlying().(*types.Signature); !isSig {
+						continue
+					}
+					pi, cnt := -1, 0
+					for k, pb := range succ.Preds {
+						if pb == b {
+							pi = k
+							cnt++
+						}
+					}
+					if cnt == 1 {
+						efacts = setFacts(efacts, "phi"+instrID(ph), fmt.Sprintf("0=%d", pi))
+					}
+				}
 				for _, o := range outs {
-					ne := est{o, e.defers, e.facts}.enc()
+					ne := est{o, e.defers, efacts}.enc()
 					if !seen[succ.Index][ne] {
 						seen[succ.Index][ne] = true
 						f.Seen[o] = true
@@ -450,7 +494,7 @@ func (f *Flow) runOne(fr *Frame, st0 string) []string {
 }
 
 // doCall returns states encoded as st [+ retSep + rets].
-func (f *Flow) doCall(fr *Frame, st string, c ssa.CallInstruction, deferred bool) []string {
+func (f *Flow) doCall(fr *Frame, st string, c ssa.CallInstruction, deferred bool, facts string) []string {
 	if f.Call != nil {
 		if handled, out := f.Call(fr, st, c, deferred); handled {
 			if out == nil {
@@ -460,28 +504,50 @@ func (f *Flow) doCall(fr *Frame, st string, c ssa.CallInstruction, deferred bool
 		}
 	}
 	callee := f.P.Callee(c)
+	var targets []FnTarget
 	if callee != nil && f.P.IsProduct(callee) {
-		child := &Frame{Fn: callee, Site: c, Parent: fr, key: fr.key + ">" + f.P.InstrPos(c) + ":" + f.P.FnKey(callee)}
-		outs := f.runOne(child, st)
-		if f.AfterCall != nil {
-			var n []string
-			for _, o := range outs {
-				parts := strings.SplitN(o, retSep, 2)
-				tail := ""
-				if len(parts) == 2 {
-					tail = retSep + parts[1]
-				}
-				if r := f.AfterCall(fr, parts[0], c, callee); r != nil {
-					for _, x := range r {
-						n = append(n, x+tail)
-					}
-				} else {
-					n = append(n, o)
+		targets = []FnTarget{{Fn: callee}}
+	} else {
+		targets = f.P.funcValueTargetsChoice(fr, c, func(ph *ssa.Phi) (int, bool) {
+			if ph.Parent() != fr.Fn {
+				return 0, false
+			}
+			if v, ok := factOf(facts, "phi"+instrID(ph), 0); ok {
+				var k int
+				if _, err := fmt.Sscanf(v, "%d", &k); err == nil {
+					return k, true
 				}
 			}
-			outs = uniq(n)
+			return 0, false
+		})
+	}
+	if len(targets) > 0 {
+		var all []string
+		for _, t := range targets {
+			callee := t.Fn
+			child := &Frame{Fn: callee, Site: c, Parent: fr, key: fr.key + ">" + f.P.InstrPos(c) + ":" + f.P.FnKey(callee), Args: t.Args, ArgFr: t.ArgFr}
+			outs := f.runOne(child, st)
+			if f.AfterCall != nil {
+				var n []string
+				for _, o := range outs {
+					parts := strings.SplitN(o, retSep, 2)
+					tail := ""
+					if len(parts) == 2 {
+						tail = retSep + parts[1]
+					}
+					if r := f.AfterCall(fr, parts[0], c, callee); r != nil {
+						for _, x := range r {
+							n = append(n, x+tail)
+						}
+					} else {
+						n = append(n, o)
+					}
+				}
+				outs = uniq(n)
+			}
+			all = append(all, outs...)
 		}
-		return outs
+		return uniq(all)
 	}
 	if f.Instr != nil {
 		if r := f.Instr(fr, st, c); r != nil {
@@ -489,6 +555,135 @@ func (f *Flow) doCall(fr *Frame, st string, c ssa.CallInstruction, deferred bool
 		}
 	}
 	return []string{st}
+}
+
+// FnTarget is one product function a call through a function value may run, with the arguments
+// its parameters receive (a bound method gets its receiver from the closure) and their frames.
+type FnTarget struct {
+	Fn    *ssa.Function
+	Args  []ssa.Value
+	ArgFr []*Frame
+}
+
+// funcValueTarget: the single target of a call through a function value (see funcValueTargets).
+func (p *Prog) funcValueTarget(fr *Frame, c ssa.CallInstruction) (*ssa.Function, []ssa.Value, []*Frame) {
+	ts := p.funcValueTargets(fr, c)
+	if len(ts) != 1 {
+		return nil, nil, nil
+	}
+	return ts[0].Fn, ts[0].Args, ts[0].ArgFr
+}
+
+// funcValueTargets resolves a call through a function value - one that reached the current
+// activation as an argument (loop(dsc.process, dsc.pass) ... handle(item)), a method value held
+// in a local (delay := dsc.delay), or one of several chosen by a branch (transfer := dsc.iou;
+// if buffered { transfer = dsc.io }): the product functions behind it. nil when any alternative
+// is not a product function.
+func (p *Prog) funcValueTargets(fr *Frame, c ssa.CallInstruction) []FnTarget {
+	return p.funcValueTargetsChoice(fr, c, nil)
+}
+
+// funcValueTargetsChoice: choice, when given, tells which edge of a phi the current path took.
+func (p *Prog) funcValueTargetsChoice(fr *Frame, c ssa.CallInstruction, choice func(ph *ssa.Phi) (int, bool)) []FnTarget {
+	cc := c.Common()
+	if cc.IsInvoke() {
+		return nil
+	}
+	if _, isB := cc.Value.(*ssa.Builtin); isB {
+		return nil
+	}
+	if _, isFn := cc.Value.(*ssa.Function); isFn {
+		return nil // a static call
+	}
+	v, vfr := cc.Value, fr
+	if fr != nil {
+		v, vfr = fr.Resolve(cc.Value)
+	}
+	if par, isPar := v.(*ssa.Parameter); isPar {
+		// the analysis started below the function that handed the value in: take it from the
+		// call sites when they all pass the same function
+		if obj, _ := par.Parent().Object().(*types.Func); obj != nil && !obj.Exported() {
+			idx := paramIndex(par.Parent(), par)
+			var pick ssa.Value
+			key := ""
+			for _, cs := range p.CallSites(p.Norm(par.Parent())) {
+				args := cs.Common().Args
+				if idx < 0 || idx >= len(args) {
+					return nil
+				}
+				k := p.Sym(args[idx]).String()
+				if pick != nil && k != key {
+					return nil
+				}
+				pick, key = args[idx], k
+			}
+			if pick != nil {
+				v, vfr = pick, nil
+			}
+		}
+	}
+	own := func(first ssa.Value, firstFr *Frame) ([]ssa.Value, []*Frame) {
+		var args []ssa.Value
+		var frs []*Frame
+		if first != nil {
+			args, frs = append(args, first), append(frs, firstFr)
+		}
+		for _, a := range cc.Args {
+			args, frs = append(args, a), append(frs, fr)
+		}
+		return args, frs
+	}
+	var out []FnTarget
+	seen := map[ssa.Value]bool{}
+	var add func(v ssa.Value, depth int) bool
+	add = func(v ssa.Value, depth int) bool {
+		if seen[v] {
+			return true
+		}
+		seen[v] = true
+		if depth > 3 {
+			return false
+		}
+		switch x := v.(type) {
+		case *ssa.Function:
+			if g := p.Norm(x); p.IsProduct(g) {
+				args, frs := own(nil, nil)
+				out = append(out, FnTarget{g, args, frs})
+				return true
+			}
+		case *ssa.MakeClosure:
+			fn, _ := x.Fn.(*ssa.Function)
+			if t := p.wrapperTarget(fn); t != nil && len(x.Bindings) == 1 && p.IsProduct(t) {
+				args, frs := own(x.Bindings[0], vfr)
+				out = append(out, FnTarget{t, args, frs})
+				return true
+			}
+			if fn != nil && fn.Synthetic == "" && len(fn.FreeVars) == 0 && p.IsProduct(p.Norm(fn)) {
+				args, frs := own(nil, nil)
+				out = append(out, FnTarget{p.Norm(fn), args, frs})
+				return true
+			}
+		case *ssa.Phi:
+			if choice != nil {
+				if k, ok := choice(x); ok && k >= 0 && k < len(x.Edges) {
+					return add(x.Edges[k], depth+1)
+				}
+			}
+			for _, e := range x.Edges {
+				if !add(e, depth+1) {
+					return false
+				}
+			}
+			return len(x.Edges) > 0
+		case *ssa.ChangeType:
+			return add(x.X, depth+1)
+		}
+		return false
+	}
+	if !add(v, 0) {
+		return nil
+	}
+	return out
 }
 
 // ---- call graph utilities ----
@@ -514,7 +709,10 @@ func (p *Prog) Reach(entries ...*ssa.Function) map[*ssa.Function]bool {
 						visit(c)
 					}
 				case *ssa.MakeClosure:
-					if cf, ok := in.Fn.(*ssa.Function); ok {
+					if cf, ok := in.Fn.(*ssa.Function); ok && !isGoOnlyClosure(cf) {
+						if t := p.wrapperTarget(cf); t != nil {
+							cf = t // a method value: the method may be called through it
+						}
 						visit(cf)
 					}
 				}
@@ -536,6 +734,54 @@ func (p *Prog) CallSites(callee *ssa.Function) []ssa.CallInstruction {
 				if c, ok := in.(ssa.CallInstruction); ok {
 					if p.Callee(c) == callee {
 						out = append(out, c)
+					}
+				}
+			}
+		}
+	}
+	return out
+}
+
+// CalleeX: the static callee, or the product function behind a method value / function-typed
+// parameter when that can be resolved (see funcValueTarget).
+func (p *Prog) CalleeX(c ssa.CallInstruction) *ssa.Function {
+	cal := p.Callee(c)
+	if cal == nil || !p.IsProduct(cal) {
+		if t, _, _ := p.funcValueTarget(nil, c); t != nil {
+			return t
+		}
+	}
+	return cal
+}
+
+// SiteArgs is a call of a function together with the arguments its parameters receive there.
+type SiteArgs struct {
+	Call ssa.CallInstruction
+	Args []ssa.Value
+}
+
+// CallSitesX: the static call sites of callee and the calls that reach it through a method value
+// or a function-typed parameter (delay := dsc.delay; delay(d)); Args are aligned with
+// callee.Params (a bound method's receiver comes from the closure).
+func (p *Prog) CallSitesX(callee *ssa.Function) []SiteArgs {
+	var out []SiteArgs
+	for _, fn := range p.Funcs() {
+		for _, b := range fn.Blocks {
+			for _, in := range b.Instrs {
+				c, ok := in.(ssa.CallInstruction)
+				if !ok {
+					continue
+				}
+				if p.Callee(c) == callee {
+					out = append(out, SiteArgs{c, c.Common().Args})
+					continue
+				}
+				if _, isGo := c.(*ssa.Go); isGo {
+					continue
+				}
+				for _, t := range p.funcValueTargets(nil, c) {
+					if t.Fn == callee {
+						out = append(out, SiteArgs{c, t.Args})
 					}
 				}
 			}
